@@ -61,6 +61,9 @@ def run(ctx):
         steps, ml = 15000, 400
     impl_phase(ctx, "rand-n", narrow, ["random", ctx.seed, steps, 2], [ml, 1], "TraceStr", LT, consts(1), props)
     impl_phase(ctx, "rand-w", wide, ["random", ctx.seed + 1, steps, 2], [ml, 1], "TraceStr", LT, consts(4), props)
+    # strings of 3*10^5 characters built in pieces, edited in the middle, halved, searched
+    from . import p_big
+    p_big.big_phase(ctx, ["str:300000"] if ctx.quick else ["str:300000", "str:3000000"])
     ctx.assumptions += [
         "TLC and the TLA+ text of Want / RetOK / ContractOK / StorageOK in StrOps.tla are trusted (reference-string semantics written independently of the concrete operators)",
         "alphabet {a, b, NUL}; partner strings are temporaries built from 7 literals; source and destination are distinct objects",
